@@ -446,6 +446,13 @@ def run(ck, facts):
                     idx["push"] = i
         oko = all(k in idx and idx[k] is not None for k in ("add_padding", "push", "add_size", "max")) and idx["add_padding"] < idx["push"] < idx["add_size"]
         ck.expect(oko, "R3", "struct_field_info/offset-order", str(idx), "the field offset is not recorded between `next_offset += padding` and `next_offset += size` (or max_align is not the running max): %s" % idx, C.loc(s))
+        # the width of the padding cells handed to the previous field is that field's own alignment: `prev_align` is refreshed from the field just laid out
+        pa = [C.strip(y["r"]) for x in items for y in [C.strip_keep_macro(x["e"]) if x.get("k") == "semi" else C.strip_keep_macro(x)]
+              if isinstance(y, dict) and y.get("k") == "assign" and C.strip(y["l"]).get("n") == "prev_align"]
+        al = next((x for x in items if x.get("k") == "letst" and x["pat"].get("n") == "align"), None)
+        okpa = len(pa) == 1 and pa[0].get("k") == "local" and al is not None and pa[0].get("id") == al["pat"].get("id")
+        ck.expect(okpa, "R3", "struct_field_info/prev_align-is-field-align", "prev_align = align", "`prev_align` is refreshed from `%s` instead of the alignment of the field just laid out: the padding-cell width of the "
+                  "next gap is wrong and the `padding %% prev_align == 0` assertion fires for layouts whose alignments go down and up again ({u16, u8, u32})" % (pa[0].get("n") if pa else None), C.loc(s))
         # size/align of the field come from the type's layout
         sz = next((x for x in items if x.get("k") == "letst" and x["pat"].get("n") == "size"), None)
         al = next((x for x in items if x.get("k") == "letst" and x["pat"].get("n") == "align"), None)
